@@ -158,10 +158,11 @@ def body():
                     spaces[key] = api.function_space(grid, k, deg, **extra, **kw)
                 return spaces[key]
 
-            def compare(name, fac, deg, kd, kt, kwA=None, probe=False, tol=TOL):
+            def compare(name, fac, deg, kd, kt, kwA=None, probe=False, tol=TOL, kwB=None):
                 kwA = kwA or {}
+                kwB = kwB or {}
                 dA, tA = sp(gA, "A", kd, **kwA), sp(gA, "A", kt, **kwA)
-                dB, tB = sp(gB, "B", kd), sp(gB, "B", kt)
+                dB, tB = sp(gB, "B", kd, **kwB), sp(gB, "B", kt, **kwB)
                 pd, sd, err = correspondence(dA, dB, kd, ob)
                 pt, st, err2 = correspondence(tA, tB, kt, ob)
                 if err or err2:
@@ -189,6 +190,8 @@ def body():
                             if name == "sparse.identity" and (kd == "RWG") != (kt == "RWG"):
                                 continue
                             compare(name, fac, deg, kd, kt)
+                            if ne >= 4 and (not quick or n % 4 == 0):
+                                compare(name + "[segment]", fac, deg, kd, kt, kwA={"segments": [4]}, kwB={"segments": [4]})
             elif kind_act in ("vperm", "eperm", "lrot"):
                 # exact with probe kernels (orders high enough for exactness)
                 par.quadrature.regular, par.quadrature.singular = 6, 6
@@ -207,6 +210,9 @@ def body():
                                 if name == "sparse.identity" and (kd == "RWG") != (kt == "RWG"):
                                     continue
                                 compare(name, fac, deg, kd, kt)
+                                if ne >= 4:
+                                    # the same on the segment of the odd elements (domain index 4 follows the elements to their new numbers)
+                                    compare(name + "[segment]", fac, deg, kd, kt, kwA={"segments": [4]}, kwB={"segments": [4]})
                 if not quick:
                     par.quadrature.regular, par.quadrature.singular = 8, 8
                     for name, fac, deg, kds, kts, _ in catalogue(api, 1, True):
